@@ -545,8 +545,15 @@ class RuntimeV1_0(Runtime):
         # the beginning as well.
         flow["elements"].insert(0, {"_type": "start_flow", "flow_id": flow_id})
 
-        # We add the flow to the list of flows.
-        self._load_flow_config(flow)
+        # We add the flow to the list of flows. The flow was written by the LLM: loading it
+        # can fail as well (e.g., `execute create_event` without a well-formed `event`
+        # parameter), in which case we drop it and fall back to a general response.
+        try:
+            self._load_flow_config(flow)
+        except Exception as e:
+            log.warning("Could not load the generated flow: %s", e)
+            self.flow_configs.pop(flow_id, None)
+            return [new_event_dict("BotIntent", intent="general response")]
 
         # And we compute the next steps. The new flow should match the current event,
         # and start.
